@@ -32,69 +32,80 @@ mod opt_cols__gen;
 mod opt_cols__srcpar;
 mod same_gen__topar;
 mod not_reorderable__ser;
-mod two_inputs__run;
-mod two_inputs__init;
-mod two_inputs__u64;
-mod ternary__perm1;
-mod bound_mix__par;
-mod bound_mix__strpar;
-mod join_chain__str;
-mod reach__pari;
-mod self_join3__pari;
-mod lag_right__ren;
-mod lag_left__to;
-mod lag_mid__par;
-mod lag_mid__strpar;
-mod multi_head_rec__pari;
-mod sp_dual__to;
-mod sp_dual__srcto;
-mod sp_dual__permpar;
-mod longest_capped__pari;
-mod set_reach__run;
-mod set_reach__init;
-mod cp__ser;
-mod lex_lat__ser;
-mod lat_two_keys__pari;
-mod lat_val_bound__pari;
-mod lat_input__gen;
-mod lat_input__srcpar;
-mod count_paths__gen;
-mod count_paths__srcpar;
-mod neg_basic__gen;
-mod neg_basic__srcpar;
-mod agg_minmaxsum__par;
-mod agg_lattice__par;
-mod neg_rec_after__par;
-mod agg_empty__par;
-mod agg_empty_rel__topar;
-mod disj__pari;
-mod disj__src2;
-mod disj__ren;
-mod disj_nested__exppar;
-mod rep_expr__pari;
-mod neg_in_disj__ser;
-mod mac_basic__to;
-mod mac_basic__srcto;
-mod mac_capture__par;
-mod mac_nested__exppar;
-mod mac_disj__pari;
-mod rnd_core_02__pari;
-mod rnd_core_05__par;
-mod rnd_core_08__ser;
-mod rnd_core_10__pari;
-mod rnd_core_13__par;
-mod rnd_core_16__ser;
-mod rnd_core_18__pari;
-mod rnd_core_21__par;
-mod rnd_core_24__ser;
-mod rnd_core_26__pari;
-mod rnd_core_29__par;
-mod rnd_agg_02__ser;
-mod rnd_agg_04__pari;
-mod rnd_agg_07__par;
-mod rnd_agg_10__ser;
-mod rnd_agg_12__pari;
-mod rnd_agg_15__par;
+mod not_reorderable__permpar;
+mod pre_join_rec__ren;
+mod two_inputs__mrt;
+mod two_inputs__runpar;
+mod two_inputs__strpar;
+mod ternary__perm2;
+mod bound_mix__pari;
+mod join_chain__ser;
+mod join_chain__u64;
+mod reach__to;
+mod lag_right__ser;
+mod lag_right__permpar;
+mod lag_left__topar;
+mod lag_mid__pari;
+mod lag_late_delta__ser;
+mod multi_head_rec__to;
+mod sp_dual__topar;
+mod sp_dual__redecl;
+mod sp_weighted__ser;
+mod longest_capped__to;
+mod set_reach__mrt;
+mod set_reach__runpar;
+mod cp__par;
+mod lex_lat__par;
+mod lat_multi_improve__ser;
+mod lat_pre_join__to;
+mod lat_input__ser;
+mod lat_input__src0;
+mod count_paths__ser;
+mod count_paths__src0;
+mod neg_basic__ser;
+mod neg_basic__src0;
+mod neg_basic__perm1;
+mod agg_minmaxsum__pari;
+mod agg_lattice__pari;
+mod neg_rec_after__pari;
+mod agg_empty__pari;
+mod agg_const_args__ser;
+mod disj__ser;
+mod disj__src0;
+mod disj__perm1;
+mod disj_nested__pari;
+mod rep_expr__ser;
+mod multi_head_disj__exp;
+mod mac_basic__par;
+mod mac_basic__src1;
+mod mac_basic__exppar;
+mod mac_nested__pari;
+mod mac_disj__ser;
+mod rnd_core_02__ser;
+mod rnd_core_04__pari;
+mod rnd_core_07__par;
+mod rnd_core_10__ser;
+mod rnd_core_12__pari;
+mod rnd_core_15__par;
+mod rnd_core_18__ser;
+mod rnd_core_20__pari;
+mod rnd_core_23__par;
+mod rnd_core_26__ser;
+mod rnd_core_28__pari;
+mod rnd_agg_01__par;
+mod rnd_agg_04__ser;
+mod rnd_agg_06__pari;
+mod rnd_agg_09__par;
+mod rnd_agg_12__ser;
+mod rnd_agg_14__pari;
+mod rnd_prec_01__topar;
+mod rnd_prec_03__pari;
+mod rnd_prec_05__ser;
+mod rnd_prec_06__to;
+mod rnd_prec_08__par;
+mod rnd_prea_02__par;
+mod rnd_prea_05__ser;
+mod rnd_prea_07__pari;
 
 fn lookup(name: &str) -> fn() -> Box<dyn Driven> {
    match name {
@@ -122,69 +133,80 @@ fn lookup(name: &str) -> fn() -> Box<dyn Driven> {
       "opt_cols__srcpar" => opt_cols__srcpar::make,
       "same_gen__topar" => same_gen__topar::make,
       "not_reorderable__ser" => not_reorderable__ser::make,
-      "two_inputs__run" => two_inputs__run::make,
-      "two_inputs__init" => two_inputs__init::make,
-      "two_inputs__u64" => two_inputs__u64::make,
-      "ternary__perm1" => ternary__perm1::make,
-      "bound_mix__par" => bound_mix__par::make,
-      "bound_mix__strpar" => bound_mix__strpar::make,
-      "join_chain__str" => join_chain__str::make,
-      "reach__pari" => reach__pari::make,
-      "self_join3__pari" => self_join3__pari::make,
-      "lag_right__ren" => lag_right__ren::make,
-      "lag_left__to" => lag_left__to::make,
-      "lag_mid__par" => lag_mid__par::make,
-      "lag_mid__strpar" => lag_mid__strpar::make,
-      "multi_head_rec__pari" => multi_head_rec__pari::make,
-      "sp_dual__to" => sp_dual__to::make,
-      "sp_dual__srcto" => sp_dual__srcto::make,
-      "sp_dual__permpar" => sp_dual__permpar::make,
-      "longest_capped__pari" => longest_capped__pari::make,
-      "set_reach__run" => set_reach__run::make,
-      "set_reach__init" => set_reach__init::make,
-      "cp__ser" => cp__ser::make,
-      "lex_lat__ser" => lex_lat__ser::make,
-      "lat_two_keys__pari" => lat_two_keys__pari::make,
-      "lat_val_bound__pari" => lat_val_bound__pari::make,
-      "lat_input__gen" => lat_input__gen::make,
-      "lat_input__srcpar" => lat_input__srcpar::make,
-      "count_paths__gen" => count_paths__gen::make,
-      "count_paths__srcpar" => count_paths__srcpar::make,
-      "neg_basic__gen" => neg_basic__gen::make,
-      "neg_basic__srcpar" => neg_basic__srcpar::make,
-      "agg_minmaxsum__par" => agg_minmaxsum__par::make,
-      "agg_lattice__par" => agg_lattice__par::make,
-      "neg_rec_after__par" => neg_rec_after__par::make,
-      "agg_empty__par" => agg_empty__par::make,
-      "agg_empty_rel__topar" => agg_empty_rel__topar::make,
-      "disj__pari" => disj__pari::make,
-      "disj__src2" => disj__src2::make,
-      "disj__ren" => disj__ren::make,
-      "disj_nested__exppar" => disj_nested__exppar::make,
-      "rep_expr__pari" => rep_expr__pari::make,
-      "neg_in_disj__ser" => neg_in_disj__ser::make,
-      "mac_basic__to" => mac_basic__to::make,
-      "mac_basic__srcto" => mac_basic__srcto::make,
-      "mac_capture__par" => mac_capture__par::make,
-      "mac_nested__exppar" => mac_nested__exppar::make,
-      "mac_disj__pari" => mac_disj__pari::make,
-      "rnd_core_02__pari" => rnd_core_02__pari::make,
-      "rnd_core_05__par" => rnd_core_05__par::make,
-      "rnd_core_08__ser" => rnd_core_08__ser::make,
-      "rnd_core_10__pari" => rnd_core_10__pari::make,
-      "rnd_core_13__par" => rnd_core_13__par::make,
-      "rnd_core_16__ser" => rnd_core_16__ser::make,
-      "rnd_core_18__pari" => rnd_core_18__pari::make,
-      "rnd_core_21__par" => rnd_core_21__par::make,
-      "rnd_core_24__ser" => rnd_core_24__ser::make,
-      "rnd_core_26__pari" => rnd_core_26__pari::make,
-      "rnd_core_29__par" => rnd_core_29__par::make,
-      "rnd_agg_02__ser" => rnd_agg_02__ser::make,
-      "rnd_agg_04__pari" => rnd_agg_04__pari::make,
-      "rnd_agg_07__par" => rnd_agg_07__par::make,
-      "rnd_agg_10__ser" => rnd_agg_10__ser::make,
-      "rnd_agg_12__pari" => rnd_agg_12__pari::make,
-      "rnd_agg_15__par" => rnd_agg_15__par::make,
+      "not_reorderable__permpar" => not_reorderable__permpar::make,
+      "pre_join_rec__ren" => pre_join_rec__ren::make,
+      "two_inputs__mrt" => two_inputs__mrt::make,
+      "two_inputs__runpar" => two_inputs__runpar::make,
+      "two_inputs__strpar" => two_inputs__strpar::make,
+      "ternary__perm2" => ternary__perm2::make,
+      "bound_mix__pari" => bound_mix__pari::make,
+      "join_chain__ser" => join_chain__ser::make,
+      "join_chain__u64" => join_chain__u64::make,
+      "reach__to" => reach__to::make,
+      "lag_right__ser" => lag_right__ser::make,
+      "lag_right__permpar" => lag_right__permpar::make,
+      "lag_left__topar" => lag_left__topar::make,
+      "lag_mid__pari" => lag_mid__pari::make,
+      "lag_late_delta__ser" => lag_late_delta__ser::make,
+      "multi_head_rec__to" => multi_head_rec__to::make,
+      "sp_dual__topar" => sp_dual__topar::make,
+      "sp_dual__redecl" => sp_dual__redecl::make,
+      "sp_weighted__ser" => sp_weighted__ser::make,
+      "longest_capped__to" => longest_capped__to::make,
+      "set_reach__mrt" => set_reach__mrt::make,
+      "set_reach__runpar" => set_reach__runpar::make,
+      "cp__par" => cp__par::make,
+      "lex_lat__par" => lex_lat__par::make,
+      "lat_multi_improve__ser" => lat_multi_improve__ser::make,
+      "lat_pre_join__to" => lat_pre_join__to::make,
+      "lat_input__ser" => lat_input__ser::make,
+      "lat_input__src0" => lat_input__src0::make,
+      "count_paths__ser" => count_paths__ser::make,
+      "count_paths__src0" => count_paths__src0::make,
+      "neg_basic__ser" => neg_basic__ser::make,
+      "neg_basic__src0" => neg_basic__src0::make,
+      "neg_basic__perm1" => neg_basic__perm1::make,
+      "agg_minmaxsum__pari" => agg_minmaxsum__pari::make,
+      "agg_lattice__pari" => agg_lattice__pari::make,
+      "neg_rec_after__pari" => neg_rec_after__pari::make,
+      "agg_empty__pari" => agg_empty__pari::make,
+      "agg_const_args__ser" => agg_const_args__ser::make,
+      "disj__ser" => disj__ser::make,
+      "disj__src0" => disj__src0::make,
+      "disj__perm1" => disj__perm1::make,
+      "disj_nested__pari" => disj_nested__pari::make,
+      "rep_expr__ser" => rep_expr__ser::make,
+      "multi_head_disj__exp" => multi_head_disj__exp::make,
+      "mac_basic__par" => mac_basic__par::make,
+      "mac_basic__src1" => mac_basic__src1::make,
+      "mac_basic__exppar" => mac_basic__exppar::make,
+      "mac_nested__pari" => mac_nested__pari::make,
+      "mac_disj__ser" => mac_disj__ser::make,
+      "rnd_core_02__ser" => rnd_core_02__ser::make,
+      "rnd_core_04__pari" => rnd_core_04__pari::make,
+      "rnd_core_07__par" => rnd_core_07__par::make,
+      "rnd_core_10__ser" => rnd_core_10__ser::make,
+      "rnd_core_12__pari" => rnd_core_12__pari::make,
+      "rnd_core_15__par" => rnd_core_15__par::make,
+      "rnd_core_18__ser" => rnd_core_18__ser::make,
+      "rnd_core_20__pari" => rnd_core_20__pari::make,
+      "rnd_core_23__par" => rnd_core_23__par::make,
+      "rnd_core_26__ser" => rnd_core_26__ser::make,
+      "rnd_core_28__pari" => rnd_core_28__pari::make,
+      "rnd_agg_01__par" => rnd_agg_01__par::make,
+      "rnd_agg_04__ser" => rnd_agg_04__ser::make,
+      "rnd_agg_06__pari" => rnd_agg_06__pari::make,
+      "rnd_agg_09__par" => rnd_agg_09__par::make,
+      "rnd_agg_12__ser" => rnd_agg_12__ser::make,
+      "rnd_agg_14__pari" => rnd_agg_14__pari::make,
+      "rnd_prec_01__topar" => rnd_prec_01__topar::make,
+      "rnd_prec_03__pari" => rnd_prec_03__pari::make,
+      "rnd_prec_05__ser" => rnd_prec_05__ser::make,
+      "rnd_prec_06__to" => rnd_prec_06__to::make,
+      "rnd_prec_08__par" => rnd_prec_08__par::make,
+      "rnd_prea_02__par" => rnd_prea_02__par::make,
+      "rnd_prea_05__ser" => rnd_prea_05__ser::make,
+      "rnd_prea_07__pari" => rnd_prea_07__pari::make,
       _ => panic!("no such program variant in this shard: {}", name),
    }
 }
